@@ -18,6 +18,7 @@ import math
 from fractions import Fraction
 
 LEVEL = "proof"
+EXTRA_PROPS = ["QuantemModel.Props.C20Ext"]   # growth 6: frozen limits applied to other frames, in-place NaN, order independence of the limits
 MANIFEST_ENTRY = {
     "category": "proof",
     "text": "Lean 4 theorems at ℝ about the Lean text that a purpose-written TRACER regenerates on every run by executing the six "
@@ -1839,6 +1840,354 @@ def stream_nhist(ctx, drv):
         rng = ctx.rng.fork(7_000_000 + i)
         one_nhist(ctx, drv, gen_nhist_case(rng, i))
 
+
+# ---------------------------------------------------------------------------------------
+# stream "edge" (growth 6): FIXED blocks, independent of VERIF_SEED, for the input classes of the round-6 themes:
+#   * limits frozen from a frame A (all-finite float frame, or a bool frame), object applied to ANOTHER frame B that holds
+#     -inf only / +inf only / both / NaN only / NaN and inf; A itself after NaN / inf were written into it IN PLACE (and the
+#     same call simply repeated); lazy objects on the same frames — under manual (both / none / one-sided), quantile and
+#     centered (negative centre) intervals, ascending / descending / all-negative data;
+#   * integer images around 127 / 255 / 32767 / 2**24 / 2**31 / 2**53 / 2**63 (through the "norm" machinery);
+#   * images with more than 2**20 pixels (periodic column pattern, one extreme pixel just past index 2**20): predicate only,
+#     vectorised.
+# Theorems behind it: Props/C20Ext.lean (frozen_any_frame_spec, bool_frozen_spec, frozen_inplace_nan, getLimits_perm, call_perm).
+
+EDGE_SPECIALS = {"clean": [], "neginf": ["-inf"], "posinf": ["inf"], "bothinf": ["-inf", "inf"], "nan": ["nan", "nan"],
+                 "nan+inf": ["nan", "inf", "-inf"]}
+EDGE_BASES = {"asc": [-3.5, -1.0, 0.25, 0.5, 2.0, 4.75, 7.0, 9.5],
+              "desc": [9.5, 7.0, 4.75, 2.0, 0.5, 0.25, -1.0, -3.5],
+              "neg": [-2.0, -3.25, -7.5, -8.0, -11.0, -40.0, -41.5, -100.0]}
+EDGE_INTERVALS = ["manual-both", "manual-auto", "manual-vmin", "manual-vmax", "quantile", "quantile01", "centered-auto-neg", "centered-half-neg"]
+EDGE_STRETCHES = [("linear", {}), ("power", {"power": 0.5}), ("logarithmic", {}), ("asinh", {}), ("power", {"power": 2}),
+                  ("logarithmic", {"logarithmic_index": 10}), ("asinh", {"asinh_linear_range": 1})]
+EDGE_MODES = ["frozen-other", "frozen-inplace", "frozen-bool", "lazy"]
+EDGE_POS = [2, 5, 7]          # where the special values sit (inserted for a frame B, overwritten for the in-place mode)
+
+
+def edge_cfg(ik, stretch, fvals):
+    fin = [v for v in fvals if isinstance(v, (int, float)) and not isinstance(v, bool) and v == v and not math.isinf(v)] or [0.0, 1.0]
+    fmin, fmax = float(min(fin)), float(max(fin))
+    span = (fmax - fmin) or 1.0
+    cfg = dict(DEFAULT_CFG)
+    if ik.startswith("manual"):
+        cfg["interval_type"] = "manual"
+        if ik in ("manual-both", "manual-vmin"):
+            cfg["vmin"] = fmin + 0.25 * span
+        if ik == "manual-both":
+            cfg["vmax"] = fmax - 0.125 * span
+        if ik == "manual-vmax":
+            cfg["vmax"] = fmax - 0.25 * span
+    elif ik.startswith("quantile"):
+        cfg["interval_type"] = "quantile"
+        if ik == "quantile01":
+            cfg["lower_quantile"], cfg["upper_quantile"] = 0, 1
+    else:
+        cfg["interval_type"] = "centered"
+        cfg["vcenter"] = -2.5
+        if ik == "centered-half-neg":
+            cfg["half_range"] = span
+    cfg["stretch_type"] = stretch[0]
+    cfg.update(stretch[1])
+    return cfg
+
+
+def gen_edge_cases():
+    cases = []
+    i = 0
+    for sp in EDGE_SPECIALS:
+        for ik in EDGE_INTERVALS:
+            for mode in EDGE_MODES:
+                base = list(EDGE_BASES[["asc", "desc", "neg"][i % 3]])
+                stretch = EDGE_STRETCHES[i % len(EDGE_STRETCHES)]
+                dt = "float32" if i % 4 == 3 else "float64"
+                spv = EDGE_SPECIALS[sp]
+                if mode == "frozen-inplace":
+                    a = list(base)
+                    b = list(base)
+                    for pos, v in zip(EDGE_POS, spv):
+                        b[pos] = v
+                else:
+                    b = list(base)
+                    for pos, v in reversed(list(zip(EDGE_POS, spv))):
+                        b.insert(pos, v)
+                    if mode == "frozen-other":
+                        a = [1.5 * v - 1.0 for v in reversed(base)]
+                    elif mode == "frozen-bool":
+                        a = [True, False, False, True]
+                    else:
+                        a = None
+                lim_frame = b if mode == "lazy" else a
+                cfg = edge_cfg(ik, stretch, [unj(v) for v in lim_frame])
+                cases.append({"stream": "edge", "mode": mode, "ik": ik, "special": sp, "dtype": dt, "cfg": cfg, "A": a, "B": b})
+                i += 1
+    return cases
+
+
+def _masked_list(np, out):
+    mask = np.ma.getmaskarray(out).ravel().tolist()
+    vals = np.ma.getdata(out).ravel().tolist()
+    return [None if m else float(v) for v, m in zip(vals, mask)]
+
+
+def one_edge(ctx, drv, case):
+    np = _np()
+    cfg, mode, dt = case["cfg"], case["mode"], case["dtype"]
+    f32 = dt == "float32"
+    sel = selected_stretch(cfg)
+    linear = bool(sel) and sel[0] == "LinearStretch"
+    sig = f"edge:{dt}:{mode}:{case['ik']}:{sel[0] if sel else None}:{case['special']}"
+    ctx.count()
+    ctx.dist["edge:mode:" + mode] += 1
+    ctx.dist["edge:special:" + case["special"]] += 1
+    ctx.dist["edge:interval:" + case["ik"]] += 1
+    ctx.mark(("edge", dt, mode, case["ik"], sel[0] if sel else None, case["special"]))
+    arrB = np.array([unj(v) for v in case["B"]], dtype=dt)
+    is_bool = mode == "frozen-bool"
+    arrA = None if case["A"] is None else (np.array(case["A"], dtype=bool) if is_bool else np.array([unj(v) for v in case["A"]], dtype=dt))
+    frozen = mode != "lazy"
+    limF = arrA if frozen else arrB                       # the frame the limits come from
+    ok_c, why = (True, "") if is_bool else admissible(cfg, limF)
+    ok_b, why_b = admissible(dict(cfg, interval_type="manual", vmin=None, vmax=None), arrB)
+    inside = ok_c and ok_b and selected_stretch(cfg) is not None
+    impl = {}
+    out_first = out_first_snapshot = None
+    try:
+        if mode == "frozen-inplace":
+            work = arrA.copy()
+            norm = make_norm(cfg, work)
+            out_first = norm(work)
+            out_first_snapshot = _masked_list(np, out_first)
+            for pos, v in zip(EDGE_POS, EDGE_SPECIALS[case["special"]]):
+                work[pos] = unj(v)                        # written IN PLACE into the frame the limits were frozen from
+            out = norm(work)
+        else:
+            norm = make_norm(cfg, arrA if frozen else None)
+            work = arrB.copy()
+            out = norm(work)
+        impl["out"] = _masked_list(np, out)
+        impl["input_changed"] = not np.array_equal(work, arrB, equal_nan=True)
+    except Exception as e:  # noqa
+        impl = {"err": err_name(e), "msg": str(e)[:200]}
+    xs = arrB.ravel().tolist()
+    # ---- correspondence (float64 frames; float32 frames are left to the predicates)
+    if not f32:
+        fb = [fbits(float(v)) for v in (limF.ravel().tolist())]
+        if frozen:
+            req = {"op": "norm", "cfg": cfg_to_driver(cfg), "frozen": True, "is_bool": is_bool, "data": fb, "probe": [fbits(v) for v in xs]}
+        else:
+            req = {"op": "norm", "cfg": cfg_to_driver(cfg), "frozen": False, "is_bool": False, "data": [fbits(v) for v in xs]}
+        m = drv.ask(req)
+        if str(m.get("err", "")).startswith("driver"):
+            raise RuntimeError(f"driver error {m}")
+        if "err" in impl or "err" in m:
+            if impl.get("err") != m.get("err"):
+                ctx.disagree("edge", case, {"err": m.get("err")}, {"err": impl.get("err"), "msg": impl.get("msg")}, note="outcome (error kind) differs")
+        else:
+            mout = [unbits(b) for b in (m["ok"]["probe_out"] if frozen else m["ok"]["out"])]
+            tol_out = 0.0 if linear else 1e-9
+            bad = [j for j, (a, b) in enumerate(zip(mout, impl["out"])) if not close(a, b, tol_out, 1.0)]
+            if bad or len(mout) != len(impl["out"]):
+                j = bad[0] if bad else 0
+                ctx.disagree("edge", case, {"i": j, "x": jnum(xs[j]), "out": mout[j] if mout else None},
+                             {"i": j, "x": jnum(xs[j]), "out": impl["out"][j] if impl["out"] else None}, note=f"pixel of the frame the object is applied to (tol {tol_out})")
+            if frozen and not is_bool and "err" not in impl:
+                for name, a, b in (("vmin", unbits(m["ok"]["vmin"]), norm.vmin), ("vmax", unbits(m["ok"]["vmax"]), norm.vmax)):
+                    if b is None or not close(a, float(b), 0.0, 1.0):
+                        ctx.disagree("edge", case, {name: a}, {name: None if b is None else float(b)}, note="frozen limit")
+    # ---- property clauses
+    if not inside:
+        ctx.dist["edge:outside-quantifier:" + (why or why_b)] += 1
+        return
+    ctx.dist["edge:inside-quantifier"] += 1
+    if "err" in impl:
+        ctx.pred_fail("raises:" + sig, f"display normalisation raised {impl['err']} ({impl.get('msg')}) on an admissible frame/configuration", case,
+                      observed=impl["err"], required="finite data mapped into [0, 1]")
+        return
+    t = slack(cfg, arrB.dtype)
+    if not clauses_range_mono_nan(ctx, case, sig, xs, impl["out"], t):
+        return
+    if out_first is not None:
+        # the frame before the in-place write: its displayed values must not move when the object is used again (a result
+        # that aliases an internal buffer would), and pixels that were not overwritten are displayed exactly as before
+        again = _masked_list(np, out_first)
+        if again != out_first_snapshot:
+            ctx.pred_fail("result-aliased:" + sig, "the result of the first call changed when the object was called again", case,
+                          observed={"first": out_first_snapshot, "first_after_second_call": again}, required="unchanged")
+            return
+        touched = set(EDGE_POS[:len(EDGE_SPECIALS[case["special"]])])
+        for j, (a, b) in enumerate(zip(out_first_snapshot, impl["out"])):
+            if j not in touched and a != b:
+                ctx.pred_fail("inplace-moved:" + sig, "limits were frozen, yet a pixel that was not overwritten is displayed differently after NaN/inf were "
+                              "written into other pixels of the same array (or the same call was repeated)", case,
+                              observed={"i": j, "x": jnum(xs[j]), "before": a, "after": b}, required=a)
+                return
+    dl = (0.0, 1.0) if is_bool else declared_limits(cfg, limF)
+    if dl is not None and dl[0] < dl[1] and not f32:
+        ctx.dist["edge:limits-beyond-checked"] += 1
+        tiny_p = (1e-13 ** float(sel[1])) if sel[0] == "PowerLawStretch" else 0.0
+        te0, te1 = max(t, 1e-9, tiny_p), max(t, 1e-9)
+        for j, (x, y) in enumerate(zip(xs, impl["out"])):
+            if x != x or math.isinf(x):
+                continue
+            want = 0.0 if x <= dl[0] else (1.0 if x >= dl[1] else None)
+            if want is not None and (y is None or abs(y - want) > (te0 if want == 0.0 else te1)):
+                ctx.pred_fail("limits-beyond:" + sig, "a pixel at/beyond the limit the configuration declares (from the frame the limits were taken from) is not at 0 / 1",
+                              case, observed={"declared_vmin": dl[0], "declared_vmax": dl[1], "x": x, "out": y}, required=want)
+                return
+    if frozen and norm.vmin is not None and norm.vmax is not None and float(norm.vmin) < float(norm.vmax):
+        ctx.dist["edge:limits-clause-checked"] += 1
+        try:
+            pv = _masked_list(np, norm(np.array([float(norm.vmin), float(norm.vmax)], dtype=np.float64)))
+        except Exception as e:  # noqa
+            pv = err_name(e)
+        if isinstance(pv, str) or pv[0] is None or pv[1] is None or abs(pv[0]) > t or abs(pv[1] - 1.0) > t:
+            ctx.pred_fail("limits:" + sig, "the limits the normalisation reports (norm.vmin, norm.vmax) are not sent to 0 and 1 after it was applied to another frame",
+                          case, observed={"vmin": float(norm.vmin), "vmax": float(norm.vmax), "norm([vmin, vmax])": pv}, required=[0.0, 1.0])
+            return
+    ctx.sample({"stream": "edge", "mode": mode, "ik": case["ik"], "special": case["special"], "dtype": dt, "B": case["B"], "out": impl["out"]}, limit=3)
+
+
+# integer images around the thresholds of the narrower types (values beyond int8 / uint8 / int16 / float32's 2**24 / int32 /
+# float64's 2**53 / int64), ascending and descending
+EDGE_INT_FRAMES = [
+    ("int8", [-128, -1, 0, 126, 127]),
+    ("uint8", [0, 127, 128, 254, 255]),
+    ("int16", [126, 127, 128, 129, 255, 256, -129, -128]),
+    ("int16", [-3, -50, -129, -300, -32768]),
+    ("uint16", [254, 255, 256, 257, 32767, 32768, 65535]),
+    ("int32", [32766, 32767, 32768, 32769, 65535, 65536]),
+    ("int32", [2 ** 24 - 1, 2 ** 24, 2 ** 24 + 1, 2 ** 24 + 2, 2 ** 24 + 3]),
+    ("int32", [-(2 ** 24) - 1, -(2 ** 24), -(2 ** 24) + 1, -(2 ** 24) + 2]),
+    ("uint32", [2 ** 31 - 1, 2 ** 31, 2 ** 31 + 1, 2 ** 32 - 1]),
+    ("int64", [2 ** 31 - 1, 2 ** 31, 2 ** 31 + 1, -(2 ** 31) - 1]),
+    ("int64", [2 ** 24, 2 ** 24 + 1, 2 ** 24 + 2, 2 ** 24 + 3, 2 ** 24 + 4]),
+    ("uint64", [2 ** 53, 2 ** 53 + 2, 2 ** 53 + 4, 2 ** 53 + 6, 2 ** 53 + 8]),
+    ("uint64", [0, 2 ** 53 + 2, 2 ** 63, 2 ** 63 + 2 ** 12, 2 ** 64 - 2 ** 11]),
+    ("int64", [-(2 ** 63), -(2 ** 53) - 2, 0, 2 ** 53 + 2, 2 ** 63 - 1024]),
+]
+EDGE_INT_INTERVALS = ["manual-auto", "quantile01", "quantile", "centered-auto-neg", "manual-vmin"]
+
+
+def gen_edge_int_cases():
+    cases = []
+    i = 0
+    for dt, vals in EDGE_INT_FRAMES:
+        for ik in EDGE_INT_INTERVALS:
+            for mode in ("frozen", "lazy"):
+                stretch = EDGE_STRETCHES[i % len(EDGE_STRETCHES)]
+                cfg = edge_cfg(ik, stretch, vals)
+                if ik == "manual-vmin":
+                    cfg["vmin"] = int(sorted(vals)[1])                 # an exact integer limit inside the data
+                if ik == "centered-auto-neg":
+                    cfg["vcenter"] = -3 if i % 2 else -2.5
+                v = list(vals) if i % 3 else list(reversed(vals))
+                shape = [len(v)] if len(v) % 2 or i % 2 else [2, len(v) // 2]
+                cases.append({"stream": "norm", "data": {"dtype": dt, "shape": shape, "values": v}, "cfg": cfg, "mode": mode, "edge": "int"})
+                i += 1
+    return cases
+
+
+EDGE_BIG = ["quantile-periodic:frozen", "quantile-periodic:lazy", "minmax-past-2^20:lazy", "centered-past-2^20:frozen"]
+
+
+def edge_big_array(which):
+    np = _np()
+    if which.startswith("quantile-periodic"):
+        # 2048 x 2048 float64 (> 2**20 pixels): every row repeats an 8-column pattern whose even columns hold only small values;
+        # 1/8 of the pixels are 90 -> the 0.98 quantile is 90, the 0.02 quantile 0; a NaN stripe, one +inf, one -inf
+        pat = np.array([0.0, 10.0, 1.0, 10.0, 2.0, 10.0, 3.0, 90.0])
+        arr = np.tile(pat, (2048, 256))
+        arr[5, ::64] = np.nan
+        arr[1001, 1003] = np.inf
+        arr[7, 2] = -np.inf
+        arr[1500, 1] = -40.0              # single finite pixels beyond the quantile limits
+        arr[2047, 2047] = 400.0
+        cfg = dict(DEFAULT_CFG)
+    else:
+        # 1 x (2**20 + 1) int32: the minimum is the pixel at index 2**20 (the first one past a 2**20 block), the maximum the last
+        # pixel of the previous block
+        n = 2 ** 20 + 1
+        arr = (np.arange(n, dtype=np.int64) % 10 + 20).astype(np.int32).reshape(1, n)
+        arr[0, n - 1] = -70000
+        arr[0, n - 2] = 17_000_000
+        cfg = dict(DEFAULT_CFG, interval_type="manual") if which.startswith("minmax") else dict(DEFAULT_CFG, interval_type="centered", vcenter=-2.5)
+    return arr, cfg
+
+
+def one_edge_big(ctx, drv, case):
+    """predicate only (the array does not cross to the Lean driver), vectorised"""
+    np = _np()
+    which, mode = case["which"].split(":")
+    arr, cfg = edge_big_array(which)
+    sig = f"edge-big:{which}:{mode}"
+    ctx.count()
+    ctx.dist["edge:big:" + which] += 1
+    ctx.mark(("edge-big", which, mode))
+    try:
+        norm = make_norm(cfg, arr if mode == "frozen" else None)
+        out = norm(arr)
+    except Exception as e:  # noqa
+        ctx.pred_fail("raises:" + sig, f"display normalisation raised {err_name(e)} on a {arr.shape} image", case, observed=str(e)[:200], required="[0, 1]")
+        return
+    x = arr.ravel().astype(np.float64)
+    y = np.ma.getdata(out).ravel().astype(np.float64)
+    msk = np.ma.getmaskarray(out).ravel()
+    if y.shape != x.shape:
+        ctx.pred_fail("range:" + sig, "output has another number of pixels", case, observed=list(y.shape), required=list(x.shape))
+        return
+    isnan, fin = np.isnan(x), np.isfinite(x)
+    if not msk[isnan].all():
+        ctx.pred_fail("nan-unmasked:" + sig, "a NaN pixel came back as a number", case, observed=int((~msk[isnan]).sum()), required="masked")
+        return
+    yf, xf = y[fin], x[fin]
+    if msk[fin].any() or not np.all((yf >= 0.0) & (yf <= 1.0)):
+        j = int(np.flatnonzero(msk[fin] | ~((yf >= 0.0) & (yf <= 1.0)))[0])
+        ctx.pred_fail("range:" + sig, "finite pixel not mapped into [0, 1]", case, observed={"x": float(xf[j]), "out": float(yf[j]), "masked": bool(msk[fin][j])},
+                      required="number in [0, 1]")
+        return
+    order = np.argsort(xf, kind="stable")
+    xs_, ys_ = xf[order], yf[order]
+    dx, dy = np.diff(xs_), np.diff(ys_)
+    badm = (dy < 0) | ((dx == 0) & (dy != 0))
+    if badm.any():
+        j = int(np.flatnonzero(badm)[0])
+        ctx.pred_fail("monotone:" + sig, "normalisation is not non-decreasing in the data value", case,
+                      observed={"x": [float(xs_[j]), float(xs_[j + 1])], "out": [float(ys_[j]), float(ys_[j + 1])]}, required="out(x0) <= out(x1) for x0 <= x1")
+        return
+    dl = declared_limits(cfg, arr)
+    lo, hi = dl
+    ctx.dist["edge:big-limits-checked"] += 1
+    below, above = xf <= lo, xf >= hi
+    if not (np.all(yf[below] == 0.0) and np.all(yf[above] == 1.0)):
+        bad = np.flatnonzero((below & (yf != 0.0)) | (above & (yf != 1.0)))
+        j = int(bad[0])
+        ctx.pred_fail("limits-beyond:" + sig, "a pixel at/beyond the limit the configuration declares for this image is not at exactly 0 / 1", case,
+                      observed={"declared_vmin": lo, "declared_vmax": hi, "x": float(xf[j]), "out": float(yf[j]), "pixels": int(len(bad))},
+                      required=0.0 if xf[j] <= lo else 1.0)
+        return
+    # strictly inside the declared limits the default linear stretch separates clearly distinct values
+    inner = (xf > lo) & (xf < hi)
+    if inner.any() and not (np.all(yf[inner] > 0.0) and np.all(yf[inner] < 1.0)):
+        j = int(np.flatnonzero(inner & ~((yf > 0.0) & (yf < 1.0)))[0])
+        ctx.pred_fail("limits-auto-distinct:" + sig, "a pixel strictly inside the declared limits is displayed like the limit (clipped)", case,
+                      observed={"declared_vmin": lo, "declared_vmax": hi, "x": float(xf[j]), "out": float(yf[j])}, required="strictly between 0 and 1")
+        return
+    if mode == "frozen":
+        pv = _masked_list(np, norm(np.array([float(norm.vmin), float(norm.vmax)], dtype=np.float64)))
+        if pv != [0.0, 1.0]:
+            ctx.pred_fail("limits:" + sig, "the limits the normalisation reports are not sent to exactly 0 and 1", case,
+                          observed={"vmin": float(norm.vmin), "vmax": float(norm.vmax), "norm([vmin, vmax])": pv}, required=[0.0, 1.0])
+
+
+def stream_edge(ctx, drv):
+    # fixed blocks: the same cases for every seed and tier
+    for case in gen_edge_cases():
+        one_edge(ctx, drv, case)
+    for case in gen_edge_int_cases():
+        one_norm(ctx, drv, case)
+    for w in EDGE_BIG:
+        one_edge_big(ctx, drv, {"stream": "edge-big", "which": w})
+
 # ---------------------------------------------------------------------------------------
 
 def run(ctx):
@@ -1851,6 +2200,7 @@ def run(ctx):
         stream_shist(ctx, drv)
         stream_norm(ctx, drv)
         stream_nhist(ctx, drv)
+        stream_edge(ctx, drv)
         stream_resolve(ctx, drv)
         stream_show(ctx, drv)
     finally:
@@ -1865,14 +2215,14 @@ def replay(ctx, rep):
     if case is None:
         ds = rep.get("correspondence_disagreements") or rep.get("disagreements") or [{}]
         case = ds[0].get("case")
-    if not case or case.get("stream") not in ("norm", "stretch", "resolve", "show", "forms", "shist", "nhist"):
+    if not case or case.get("stream") not in ("norm", "stretch", "resolve", "show", "forms", "shist", "nhist", "edge", "edge-big"):
         print("replay: no replayable case in file (tie-only report); re-running the quick streams")
         run(ctx)
         return True
     drv = Driver("C20")
     try:
         {"norm": one_norm, "stretch": one_stretch, "resolve": one_resolve, "show": one_show, "forms": one_forms,
-         "shist": one_shist, "nhist": one_nhist}[case["stream"]](ctx, drv, case)
+         "shist": one_shist, "nhist": one_nhist, "edge": one_edge, "edge-big": one_edge_big}[case["stream"]](ctx, drv, case)
     finally:
         drv.close()
     return True
